@@ -50,10 +50,15 @@ If the current thread is a `tokio` thread then this call will be executed using 
 */
 pub fn blocking_flush<T: Channel>(sender: &Sender<T>, timeout: Duration) -> bool {
     match tokio::runtime::Handle::try_current() {
-        // If we're on a `tokio` thread then await
-        Ok(handle) => handle.block_on(flush(sender, timeout)),
-        // If we're not on a `tokio` thread then run a regular blocking variant
-        Err(_) => sync::blocking_flush(sender, timeout),
+        // If we're on a multi-threaded `tokio` thread then block in place
+        // NOTE: We can't `block_on` here; that panics when called from within a runtime.
+        // Only multi-threaded runtimes support `block_in_place`; it panics on current-thread ones
+        Ok(handle) if handle.runtime_flavor() == tokio::runtime::RuntimeFlavor::MultiThread => {
+            tokio::task::block_in_place(|| sync::blocking_flush(sender, timeout))
+        }
+        // If we're not on a `tokio` thread, or on one that can't hand its work to
+        // another thread, then run a regular blocking variant
+        _ => sync::blocking_flush(sender, timeout),
     }
 }
 
@@ -81,10 +86,15 @@ pub fn blocking_send<T: Channel>(
     timeout: Duration,
 ) -> Result<(), BatchError<T::Item>> {
     match tokio::runtime::Handle::try_current() {
-        // If we're on a `tokio` thread then await
-        Ok(handle) => handle.block_on(send(sender, msg, timeout)),
-        // If we're not on a `tokio` thread then run a regular blocking variant
-        Err(_) => sync::blocking_send(sender, msg, timeout),
+        // If we're on a multi-threaded `tokio` thread then block in place
+        // NOTE: We can't `block_on` here; that panics when called from within a runtime.
+        // Only multi-threaded runtimes support `block_in_place`; it panics on current-thread ones
+        Ok(handle) if handle.runtime_flavor() == tokio::runtime::RuntimeFlavor::MultiThread => {
+            tokio::task::block_in_place(|| sync::blocking_send(sender, msg, timeout))
+        }
+        // If we're not on a `tokio` thread, or on one that can't hand its work to
+        // another thread, then run a regular blocking variant
+        _ => sync::blocking_send(sender, msg, timeout),
     }
 }
 
